@@ -149,3 +149,32 @@ func genInt64(t *rapid.T, label string) int64 {
 }
 
 func hexp(b []byte) *kit.Hex { h := kit.Hex(b); return &h }
+
+// uniformInt draws from [0, n) without rapid's bias towards small values (rapid.IntRange favours
+// short bit lengths; rapid.Bool is a fair coin). Used where a generator needs a stated distribution.
+func uniformInt(t *rapid.T, n int, label string) int {
+	if n <= 1 {
+		return 0
+	}
+	nbits := 0
+	for 1<<uint(nbits) < n {
+		nbits++
+	}
+	for try := 0; ; try++ {
+		v := 0
+		for b := 0; b < nbits; b++ {
+			if rapid.Bool().Draw(t, label) {
+				v |= 1 << uint(b)
+			}
+		}
+		if v < n {
+			return v
+		}
+		if try >= 6 {
+			return v % n
+		}
+	}
+}
+
+// pick draws uniformly from a (weighted by repetition) list.
+func pick[T any](t *rapid.T, label string, xs ...T) T { return xs[uniformInt(t, len(xs), label)] }
